@@ -5,5 +5,6 @@ CONSTANTS
   GraphIdempotent = FALSE
   CacheTransparent = TRUE
   SerialsMemoised = TRUE
+  ScopeFixed = TRUE
 INVARIANTS C19_GraphStable
 CHECK_DEADLOCK FALSE
